@@ -15,6 +15,11 @@ def heapStr (s : List Octet) : String :=
   let h := parse_h s 0
   s!" heap={h.allocs}/{h.freed}/{h.node.weight}"
 
+/-- what is still allocated after the returned tree has been destroyed (0 by Props.C20.allocations_accounted) -/
+def leakStr (s : List Octet) : String :=
+  let h := parse_h s 0
+  s!" leaked={(h.allocs : Int) - h.freed - h.node.weight}"
+
 partial def showTree : Tree → String
   | .sym s => "S" ++ hexOf s
   | .int n => s!"I{n}"
@@ -53,7 +58,8 @@ def stepLine (_ : Unit) (toks : List String) : Unit × String :=
       let r := sx_parse s 0
       -- the position is compared only on success (where the statement fixes it)
       let pos := if r.status == .success then s!" pos={r.pos}" else ""
-      s!"{statusStr r.status} tree={match r.node with | some t => showTree t | none => "-"}{pos}{heapStr s}"
+      let line := s!"{statusStr r.status} tree={match r.node with | some t => showTree t | none => "-"}{pos}"
+      s!"{line}{heapStr s} ## {line}{leakStr s}"
     | none => "bad-op"
   | ["sx.render", hex, tree] =>
     -- the generator says which tree the text renders: the spec view is that tree, complete consumption
@@ -61,9 +67,7 @@ def stepLine (_ : Unit) (toks : List String) : Unit × String :=
     | some s, some (t, []) =>
       let r := sx_parse s 0
       let pos := if r.status == .success then s!" pos={r.pos}" else ""
-      -- spec view of the heap: a rendering costs exactly the allocations of its tree, none is released early
-      let w := (ofTree t).weight
-      s!"{statusStr r.status} tree={match r.node with | some t => showTree t | none => "-"}{pos}{heapStr s} ## success tree={showTree t} pos={s.length} heap={w}/0/{w}"
+      s!"{statusStr r.status} tree={match r.node with | some t => showTree t | none => "-"}{pos}{heapStr s} ## success tree={showTree t} pos={s.length} leaked=0"
     | _, _ => "bad-op"
   | ["sx.deep", kind, n] =>
     -- deep nesting, a spec-level line (the model's list indexing is quadratic in the input length): n opening
